@@ -19,10 +19,10 @@ checks = {
    "Race build. 2-8 tasks use ONE connection (tlcp, dtlcp ReadFrom/WriteTo, pa adapter) while the kernel decides every pre-emption at every mutex/atomic/transport operation; scenarios: established, first use racing with the handshake, Close racing with in-flight calls, pa first use. Oracle: no race report, no deadlock, same Handshake result for all callers, every successful Write whole and exactly once at the peer (multi-record writes included), inbound frames delivered exactly once across concurrent readers, Close unblocks everything, second Close reports closed.",
    "Trusted: pre-emption only at instrumented points (code between them is atomic in the simulation; the race detector still sees every access); bounded race-detector history.", "5/C13"),
  "C02": ("fault_enumeration", "enumerated impostor catalogue played by a scripted (Byzantine) server on an independent reference implementation against a real client",
-   "Enumerates the catalogue of the property (19 impostors incl. honest control, mixed trusted/untrusted pair on resumption, host-name certificate against an IP literal) x 4 suites x InsecureSkipVerify on/off x both stacks; thorough repeats under 200 seeds. The scripted server keeps transcript and keys consistent, so only the client's own checks can stop it. Oracle: client Handshake fails, HandshakeComplete stays false and Read delivers nothing for every impostor; honest controls complete and exchange data.",
+   "Enumerates the catalogue of the property (24 impostors incl. two honest controls, mixed trusted/untrusted pair on resumption, host-name certificate against an IP literal, ServerKeyExchange signed with the encryption key, certificates expired only at the configured time, configured clock moved past the certificates' end after an earlier success) x 4 suites x InsecureSkipVerify on/off x both stacks; thorough repeats under 200 seeds. The scripted server keeps transcript and keys consistent, so only the client's own checks can stop it. Oracle: client Handshake fails, HandshakeComplete stays false and Read delivers nothing for every impostor; honest controls complete and exchange data.",
    "Trusted: scripted peer honest where it says so (validated by the controls); static PKI.", "5/C02"),
  "C07": ("fault_enumeration", "enumerated policy x behaviour table (full and resumed) played by a scripted client against a real server",
-   "6 policies x 9 client behaviours (incl. leading with the encryption certificate and omitting CertificateVerify) x 4 suites x both stacks on full handshakes, and (original policy x policy in force x behaviour) on resumed handshakes across configurations sharing the cache. Oracle: model of the ClientAuthType documentation; additionally peer certificates / verified chains reported by the server must be backed by what was checked.",
+   "6 policies x 11 client behaviours (incl. leading with the encryption certificate and omitting CertificateVerify, certificates expired / in date only at the configured time, which differs from the wall clock); after every refused handshake its session id is offered again and must not be resumed x 4 suites x both stacks on full handshakes, and (original policy x policy in force x behaviour) on resumed handshakes across configurations sharing the cache. Oracle: model of the ClientAuthType documentation; additionally peer certificates / verified chains reported by the server must be backed by what was checked.",
    "Trusted: the policy model; scripted client validated by the cases the model allows.", "5/C07"),
  "C08": ("exploration", "all single edits (thorough: + double edits) of every legal message flow, sent by a scripted peer that keeps its transcript and keys consistent",
    "For each role, flow and stack: the legal flow plus every omission, repetition, adjacent transposition and insertion of any kind of the alphabet at any position, and 16/17 warning alerts. Oracle: completes iff a prefix of what was delivered (tolerated warning alerts removed) is exactly a legal flow.",
